@@ -170,3 +170,42 @@ func RunsTest_alt1(x []bool) (float64, float64) {
 	V := (float64(runs) - 2*float64(n)*pi*(1-pi)) / (2 * math.Sqrt(float64(n)) * pi * (1 - pi))
 	return normalPQ(V)
 }
+
+// LongestRunOfOnesInABlockProto_alt1: the class clamp written as min(max(longest, startV), startV+k). Equal to the
+// if / else-if chain of the primary formulation because k >= 0 in every row of the parameter table (3, 5, 6: the
+// rows are pinned by R-TABLE), so startV <= startV+k and the two one-sided clamps cannot interfere.
+func LongestRunOfOnesInABlockProto_alt1(x []bool, ones bool) (float64, float64) {
+	n := len(x)
+	par := parameters[selectParameters(n)]
+	N := n / par.m
+	v := make([]float64, par.k+1)
+	for i := 0; i < N; i++ {
+		run := 0
+		longest := 0
+		for j := 0; j < par.m; j++ {
+			if x[i*par.m+j] == ones {
+				run++
+				if !(longest > run) {
+					longest = run
+				}
+			} else {
+				run = 0
+			}
+		}
+		c := longest
+		if c < par.startV {
+			c = par.startV
+		}
+		hi := par.startV + par.k
+		if c > hi {
+			c = hi
+		}
+		v[c-par.startV]++
+	}
+	V := 0.0
+	for i := 0; i < par.k+1; i++ {
+		V += (v[i] - float64(N)*par.pi[i]) * (v[i] - float64(N)*par.pi[i]) / (float64(N) * par.pi[i])
+	}
+	P := igamc(float64(par.k)/2, V/2)
+	return P, P
+}
